@@ -10,6 +10,14 @@ def Out.isErr {α : Type} : Out α → Bool
   | .err => true
   | _ => false
 
+def Out.isNan {α : Type} : Out α → Bool
+  | .nan => true
+  | _ => false
+
+def Out.isPanic {α : Type} : Out α → Bool
+  | .panic => true
+  | _ => false
+
 /-- the support of branch number `i` of an accepted run -/
 def supAt (o : Out (List Rat)) (i : Nat) : Option Rat :=
   match o with
